@@ -615,7 +615,14 @@ func (c *Client) negotiateVersion(ctx context.Context) error {
 		return err
 	}
 	if resp.Header.BatchCount != 1 || len(resp.BatchItem) != 1 {
-		return errors.New("Unexpected batch item count")
+		// Keep what the failed items say, as BatchOpt does
+		err := errors.New("Unexpected batch item count")
+		for _, bi := range resp.BatchItem {
+			if e := bi.Err(); e != nil {
+				err = errors.Join(err, e)
+			}
+		}
+		return err
 	}
 	bi := resp.BatchItem[0]
 	if bi.ResultStatus == kmip.ResultStatusOperationFailed && bi.ResultReason == kmip.ResultReasonOperationNotSupported {
